@@ -1,0 +1,80 @@
+//go:build verif
+
+package utreexo
+
+import (
+	"fmt"
+	"math/bits"
+	"sync/atomic"
+)
+
+// VerifHook, when set, is called with the name of every verifPoint that is
+// passed. It is only compiled in with the "verif" build tag.
+var VerifHook atomic.Pointer[func(site string)]
+
+func verifPoint(site string) {
+	if f := VerifHook.Load(); f != nil {
+		(*f)(site)
+	}
+}
+
+// VerifCheckStructure walks the whole pollard and checks the pointer structure:
+// roots have no aunt, nieces come in pairs and point back to the node that
+// holds them, every stored parent hash is the hash of its children and the
+// NodeMap holds exactly the reachable leaves.
+func (p *Pollard) VerifCheckStructure() error {
+	if len(p.Roots) != bits.OnesCount64(p.NumLeaves) {
+		return fmt.Errorf("have %d roots for %d leaves", len(p.Roots), p.NumLeaves)
+	}
+	leaves := 0
+	// holder is the node whose nieces are the children of n: n itself for a
+	// root, the sibling of n otherwise.
+	var walk func(n, holder *polNode, depth int) error
+	walk = func(n, holder *polNode, depth int) error {
+		if depth > 64 {
+			return fmt.Errorf("branch longer than 64 nodes (cycle?)")
+		}
+		l, r := holder.lNiece, holder.rNiece
+		if (l == nil) != (r == nil) {
+			return fmt.Errorf("node %s has only one child", n.data)
+		}
+		if l == nil {
+			if n.data != empty {
+				m, ok := p.NodeMap[n.data.mini()]
+				if !ok {
+					return fmt.Errorf("leaf %s is reachable but not in the NodeMap", n.data)
+				}
+				if m != n {
+					return fmt.Errorf("NodeMap entry of leaf %s points to a different node", n.data)
+				}
+				leaves++
+			}
+			return nil
+		}
+		if l.aunt != holder || r.aunt != holder {
+			return fmt.Errorf("children of %s do not point back to the node holding them", n.data)
+		}
+		if n.data != parentHash(l.data, r.data) {
+			return fmt.Errorf("node %s is not the hash of its children %s, %s", n.data, l.data, r.data)
+		}
+		if err := walk(l, r, depth+1); err != nil {
+			return err
+		}
+		return walk(r, l, depth+1)
+	}
+	for i, root := range p.Roots {
+		if root == nil {
+			return fmt.Errorf("root %d is nil", i)
+		}
+		if root.aunt != nil {
+			return fmt.Errorf("root %d has an aunt", i)
+		}
+		if err := walk(root, root, 0); err != nil {
+			return fmt.Errorf("tree %d: %v", i, err)
+		}
+	}
+	if leaves != len(p.NodeMap) {
+		return fmt.Errorf("%d leaves reachable but %d entries in the NodeMap", leaves, len(p.NodeMap))
+	}
+	return nil
+}
